@@ -238,3 +238,16 @@ Lemma block_key_design_refuted :
   (* ... and A rejects a payload issued under its own full secret *)
   (check_payload w_mac (block_key w_secret_a) 300 0 (generate_payload w_mac w_secret_a w_nonce 300 0) = Ok false).
 Proof. repeat split; vm_compute; reflexivity. Qed.
+
+(** * GeneratePayload storing now + lifetime SECONDS (seeded mutant C19-r4m1) while CheckPayload
+      still accepts until stored + lifetime: the lifetime is counted twice.  Lifetime 300 s,
+      issued at second 1000, presented at second 1450 (150 s after it should have expired). *)
+Definition generate_payload_seconds (hmac : bytes -> bytes -> bytes) (secret nonce : bytes) (lifetime now : Z) : bytes :=
+  let body := nonce ++ be64 ((now + lifetime * giga) / giga) in
+  hex_encode (firstn 32 (body ++ hmac secret body)).
+
+Lemma lifetime_counted_twice_refuted :
+  (check_payload w_mac w_secret_a 300 (1450 * giga) (generate_payload w_mac w_secret_a w_nonce 300 (1000 * giga)) = Ok false) /\
+  (check_payload w_mac w_secret_a 300 (1450 * giga) (generate_payload_seconds w_mac w_secret_a w_nonce 300 (1000 * giga)) = Ok true) /\
+  (check_payload w_mac w_secret_a 300 (1250 * giga) (generate_payload w_mac w_secret_a w_nonce 300 (1000 * giga)) = Ok true).
+Proof. repeat split; vm_compute; reflexivity. Qed.
